@@ -97,14 +97,13 @@ Proof. unfold next_byte. destruct (_ <=? _); [exact I|]. destruct (s_rest s) as 
 Lemma advance_good n s : wf s -> good (adv n s) (advance n s).
 Proof.
   intros W. unfold advance. destruct (s_end s <? s_pos s + n) eqn:E; [exact I|].
-  cbn [good]. unfold adv, wf in *; cbn [s_pos s_end s_rest]. rewrite skipn_length. Set Printing All. Show. Unset Printing All. lia.
+  cbn [good]. unfold adv, wf in *; cbn [s_pos s_end s_rest]. rewrite skipn_length. lia.
 Qed.
 
 Lemma scan_le f l r : (scan f l r <= r /\ scan f l r <= length l)%nat.
 Proof.
-  revert l; induction r; intros l; cbn [scan]; [lia|].
-  destruct l; [cbn; lia|]. destruct (f n); [|cbn; lia].
-  specialize (IHr l). cbn [length]. lia.
+  revert r; induction l as [|x l IH]; intros r; destruct r; cbn [scan length]; try lia.
+  destruct (f x); [|lia]. specialize (IH r). lia.
 Qed.
 
 Lemma skip_bytes_adv f s : wf s -> adv 0 s (skip_bytes f s).
@@ -198,7 +197,7 @@ Proof.
   eapply good_weaken; [apply IHfuel|].
   - eapply adv_wf; eauto.
   - unfold adv, wf in *; lia.
-  - intros s'' H2. eapply adv_trans0; eauto.
+  - intros s'' H2. eapply adv_trans0; [exact Ha|exact H2].
 Qed.
 
 Lemma fuel_enough s : wf s -> s_end s - s_pos s < N.of_nat (S (length (s_rest s))).
@@ -223,7 +222,7 @@ Proof.
   eapply good_weaken; [apply IHfuel|].
   - eapply adv_wf; eauto.
   - unfold adv, wf in *; lia.
-  - intros s'' H2. eapply adv_trans0; eauto.
+  - intros s'' H2. eapply adv_trans0; [exact Ha|exact H2].
 Qed.
 
 Lemma skip_name_good s : wf s -> good (adv 0 s) (skip_name text s).
@@ -235,7 +234,7 @@ Proof.
   eapply good_weaken; [apply skip_name_loop_good|].
   - eapply adv_wf; eauto.
   - apply fuel_enough. eapply adv_wf; eauto.
-  - intros s'' H2. eapply adv_trans0; eauto.
+  - intros s'' H2. eapply adv_trans0; [exact Ha|exact H2].
 Qed.
 
 (* a name that was accepted is not empty, so consume_name moves forward *)
@@ -261,7 +260,7 @@ Proof.
     eapply good_weaken; [apply IHfuel|].
     - eapply adv_wf; eauto.
     - unfold adv, wf in *; lia.
-    - intros s'' H2. eapply adv_trans0; eauto. }
+    - intros s'' H2. eapply adv_trans0; [exact Ha|exact H2]. }
   destruct (at_end s); [cbn [good snd]; apply adv_refl; assumption|].
   eapply good_bind; [apply curr_byte_unchecked_good|]. intros x _.
   destruct (x <? 128).
